@@ -73,6 +73,7 @@ def run(ctx):
     out = SP.run_streams(ctx, MASK, monitor, 'priority-pool-contract', [
         ('G-sim-ppool', 300, 6000, dict(algo='priority-pool')),
         ('G-sim-saturate-ppool', 120, 2000, dict(saturate='priority-pool')),
+        ('G-sim-ppool-stuck', 30, 500, dict(ppool_stuck=True)),
     ])
     # pool counts other than two: both sides must refuse before the first tick (model: sim_dump_main / sim_main)
     st = dict(out['dist'])
